@@ -130,6 +130,16 @@ func runC06(r *Result, thorough bool) {
 						if victim.core.Sync(x.core.ID(), damaged) != nil {
 							r.Inc("last_acts_with_aborted_sync", 1)
 						}
+						// ... possibly followed, before the victim talks to anybody else, by an answer of x
+						// that brings no event of x (an empty answer, or one truncated by the sync limit)
+						switch rng.Intn(3) {
+						case 0:
+							victim.core.Sync(x.core.ID(), []hg.WireEvent{})
+							r.Inc("last_acts_followed_by_an_empty_answer", 1)
+						case 1:
+							cl.pull(victim, x, 1)
+							r.Inc("last_acts_followed_by_a_truncated_pull", 1)
+						}
 						// the transaction was accepted by a validator that then went silent: it need not
 						// commit, but the live validators must become idle again (C06: no stall)
 					}
